@@ -88,7 +88,21 @@ def execute(case):
     if case["kind"] == "script":
         return R.run_script(case)
     if case["kind"] == "composite":
-        return R.run_composite(case)
+        tr = R.run_composite(case)
+        if len(case["clients"]) > 1:
+            # every client once more, alone, with the same scripted latencies: what it records must not depend on the others
+            for ci, cl in enumerate(case["clients"]):
+                solo = R.run_composite({"kind": "composite", "clients": [cl]})
+                alone = [e for e in solo["ev"] if e["a"] == "Sample"]
+                together = [e for e in tr["ev"] if e["a"] == "Sample" and e["t"] == ci + 1]
+                for k, e in enumerate(together):
+                    if k < len(alone):
+                        e["solo"] = [alone[k]["rs"], alone[k]["st"]]
+                        e["solodeps"] = alone[k]["deps"]
+                    else:
+                        e["solo"] = [R.NONE, R.NONE]
+                        e["solodeps"] = []
+        return tr
     raise tlc.MachineryError("unknown case kind %r" % (case.get("kind"),))
 
 
@@ -116,6 +130,8 @@ def _features(tr, feats):
         feats["composite-with-sub-requests"] = feats.get("composite-with-sub-requests", 0) + 1
     if any(e["a"] == "Exit" and e["raised"] for e in ev):
         feats["exit-by-exception"] = feats.get("exit-by-exception", 0) + 1
+    if len(tr["roots"]) > 1 and any(e["a"] == "Sample" for e in ev):
+        feats["clients-compared-with-solo-run"] = feats.get("clients-compared-with-solo-run", 0) + 1
     if any(e["a"] == "Sample" and not e["ok"] for e in ev):
         feats["composite-with-failed-sub-request"] = feats.get("composite-with-failed-sub-request", 0) + 1
 
@@ -173,6 +189,12 @@ def run_cases(cases, out, label, feats=None, chunk=400):
             out.extra["executions_that_raised"] = out.extra.get("executions_that_raised", 0) + 1
         if feats is not None:
             _features(tr, feats)
+            if case["kind"] == "composite":
+                limits = [{it["max_conn"] for it in cl["iters"] if it.get("max_conn")} for cl in case["clients"]]
+                if any(limits):
+                    feats["connection-limit"] = feats.get("connection-limit", 0) + 1
+                if any(limits[i] & limits[j] for i in range(len(limits)) for j in range(i)):
+                    feats["clients-with-the-same-connection-limit"] = feats.get("clients-with-the-same-connection-limit", 0) + 1
         nwire = sum(1 for e in tr["ev"] if e["a"] == "WireStart")
         nctx = sum(1 for e in tr["ev"] if e["a"] == "Enter")
         norm = {k: v for k, v in case.items() if k != "src"}
@@ -256,6 +278,10 @@ def run(ctx, out):
         "observation: the code under test gets a subclass instance of the real RequestContextHolder (calls the real method, then records) and the real "
         "RequestContextManager behind a delegating proxy; absent / None of a timing is read from the manager's ctx dict; asyncio task creation is "
         "seen through the loop's task factory",
+        "'timings of different clients never influence each other' on composite requests: all clients of a case run in one event loop through the one "
+        "registered composite runner instance; each client is executed once more ALONE with the same scripted latencies (the fake client serves every "
+        "request after its own scripted delay) and request_start / service_time / dependent timings of every sample must be identical (ClientIndependent)",
+        "absolute_time of a sub-request (wall clock = epoch + virtual clock) must lie between the instant its timing context was entered and its first wire request",
         "composite driver: the schedule (ScheduleHandle) is replaced by a scripted one; sub-request samples are linked to their context by operation "
         "name where the request passes through perform_request (not for sleep), otherwise compared as a multiset",
     ]
@@ -320,7 +346,7 @@ def run(ctx, out):
     # ---- wire leg: the real asynchronous client (aiohttp trace hooks of client/factory.py) against a loopback server, real time
     wireleg.run_leg(ctx, out, "C18")
     out.extra["features_exercised"] = feats
-    for need in ACTIONS + ["Sample", "chunked-end", "several-clients", "nested", "concurrent-children", "composite-with-sub-requests", "exit-by-exception", "composite-with-failed-sub-request"]:
+    for need in ACTIONS + ["Sample", "chunked-end", "several-clients", "nested", "concurrent-children", "composite-with-sub-requests", "exit-by-exception", "composite-with-failed-sub-request", "clients-compared-with-solo-run", "connection-limit", "clients-with-the-same-connection-limit"]:
         if not feats.get(need):
             if out.extra.get("executions_that_raised") and need in ("Sample", "composite-with-sub-requests", "composite-with-failed-sub-request"):
                 continue  # no sample reaches the sampler when the executor raises; reported as drift above
